@@ -126,6 +126,12 @@ func genC02(t *rapid.T) *C02Case {
 	// interleave phases in configuration order: shuffle while keeping same-phase order
 	perm := rapid.Permutation(items).Draw(t, "order")
 	items = stablePhaseOrder(items, perm)
+	// markers (pseudo-rules that belong to every phase) anywhere between the rules: they steer nothing here,
+	// and they must not stop anything either
+	for k, n := 0, rapid.IntRange(0, 2).Draw(t, "nmarkers"); k < n; k++ {
+		pos := rapid.IntRange(0, len(items)).Draw(t, "markerpos")
+		items = append(items[:pos], append([]Item{{Marker: fmt.Sprintf("MK%d", k)}}, items[pos:]...)...)
+	}
 	c.RS.Items = items
 	c.RS.Pre = c.Cfg.PreLines()
 	if c.Cfg.Engine == "DetectionOnly" && rapid.Bool().Draw(t, "rejectcfg") {
